@@ -48,6 +48,7 @@ from ..groups import (
     DrillholeGroup,
     Group,
     IntegratorDrillholeGroup,
+    NoTypeGroup,
     PropertyGroup,
     RootGroup,
 )
@@ -310,6 +311,9 @@ class Workspace(AbstractContextManager):
         entity_type = type(entity)
         if isinstance(entity, Data):
             entity_type = Data
+        elif isinstance(entity, RootGroup):
+            # a file has one Root: the copy of a Root is an ordinary group of the target
+            entity_type = NoTypeGroup
 
         entity_kwargs.pop("property_groups", None)
         # the depth channel of a drillhole is one of its children: the copy finds its own
